@@ -33,7 +33,8 @@ def scenarios(quick):
              (R(T.tee(maxseq=1)), 'SpecPrompt', ['no_required'], {})],
         conf=[(R(T.chain3(maxseq=2, skip=(1,))), 'SpecPrompt', 8 if quick else 100, 200),
               (R(T.tee_rejoin2(maxseq=2, skip=())), 'SpecPrompt', 8 if quick else 100, 250),
-              (R(T.chain3_lazy(maxseq=2)), 'SpecPrompt', 6 if quick else 60, 200)],
+              (R(T.chain3_lazy(maxseq=2)), 'SpecPrompt', 6 if quick else 60, 200),
+              (R(T.chain3_empty(maxseq=2)), 'SpecPrompt', 4 if quick else 40, 200)],
         rand=[(R(T.chain3(maxseq=5, skip=(1, 3))), 8 if quick else 150, 1500),
               (R(T.chain3(maxseq=4, slow=True)), 6 if quick else 100, 1500),
               (R(T.tee_rejoin2(maxseq=4, skip=())), 8 if quick else 150, 2000),
@@ -42,10 +43,26 @@ def scenarios(quick):
               (R(T.tee(maxseq=4)), 6 if quick else 100, 1500),
               (R(T.chain3_lazy(maxseq=4)), 6 if quick else 100, 1500),
               # a branch whose subscribed topic is absent on odd frames (completed by the topics message) next to a slow branch
-              (R(T.tee_rejoin_absent(maxseq=6)), 8 if quick else 120, 3000)],
+              (R(T.tee_rejoin_absent(maxseq=6)), 8 if quick else 120, 3000),
+              # process() returns an empty dict: it is delivered as an empty set, not dropped
+              (R(T.chain3_empty(maxseq=5)), 6 if quick else 100, 1500)],
         # required consumers whose ids are prefixes of one another, the shorter-named one joining late
-        late=[(T.tee_names(maxseq=5), 8 if quick else 120, 2000)],
+        late=[(T.tee_names(maxseq=5), 8 if quick else 120, 2000, 'K'),
+              # the publisher appears late: the consumer's request pipe has filled up (zmq.Again) before; the handshake must still
+              # wait for the SUB connection
+              (R(T.chain2(maxseq=5)), 10 if quick else 150, 2000, 'S')],
     )
+
+
+def late_faults(rng, who):
+    """K: the task exists but is held back.  S: the process does not exist at first (no sockets bound); when it appears, its
+    SUB connections may complete much later than the request pipes (connection establishment is not a message delay)."""
+    at = rng.randrange(40, 250)
+    if who != 'S':
+        return [(0, lambda p: p.stall(who)), (at, lambda p: p.resume(who))]
+    return [(0, lambda p: (p.kill(who, False), setattr(p, 'hold_est', True))),
+            (at, lambda p: p.restart(who)),
+            (at + rng.randrange(1, 160), lambda p: setattr(p, 'hold_est', False))]
 
 
 def run(ctx):
@@ -72,9 +89,10 @@ def run(ctx):
         eng.cover(topos.with_required(topos.chain3(maxseq=1)), 'SpecPrompt', max_paths=5000)
     for topo, n, steps in sc['rand']:
         eng.random_runs(topo, n, steps, p_timeout=0.0, judgekw=JK, tag='prompt', pipekw=dict(local_clocks=False), validate=2 if ctx.quick else 20)
-    for topo, n, steps in sc['late']:
-        eng.random_runs(topo, n, steps, p_timeout=0.0, judgekw=JK, tag='late-join', pipekw=dict(local_clocks=False),
-                        faults=lambda rng, pipe: [(0, lambda p: p.stall('K')), (rng.randrange(40, 250), lambda p: p.resume('K'))])
+    for topo, n, steps, who in sc['late']:
+        eng.random_runs(topo, n, steps, p_timeout=0.0, judgekw=JK, tag=f'late-{who}', pipekw=dict(local_clocks=False),
+                        # K: the task exists but is held back; S: the process does not exist at first (no sockets bound)
+                        faults=lambda rng, pipe, who=who: late_faults(rng, who))
     return rep.finish()
 
 
